@@ -1,49 +1,58 @@
 /-
 C13  Substring search does work linear in haystack plus needle length.
 
-STATUS: PARTIAL.  This file states every step-count bound that is proved today (the step
-counter ticks exactly where the Rust has a `crate::verif::tick` hook) and the obligations on
-the generated constants that the linearity argument relies on.
+STATUS: PROVED at full strength (headline: `linear_work` at the end of this file).
 
-Proved here
-* Two-Way, the searcher behind every needle the vector searcher does not own: construction
-  (forward and reverse) `6 * needle.len + 2` steps; one search with a constructed finder
-  `3 * haystack.len + 2 * needle.len + 1` steps; construction + search
-  `3 * haystack.len + 8 * needle.len + 3` steps - for EVERY needle and haystack, forward (without
-  a prefilter) and reverse: no input family makes Two-Way quadratic;
-* `is_equal_raw` (the confirm-by-memcmp): `n / 4 + 2` steps;
-* Rabin-Karp forward / reverse: `2 * (h.len + 1) * (n.len / 4 + 2) + 2 * n.len` steps,
-  construction included - a product, but the meta searcher only calls Rabin-Karp on haystacks
-  shorter than a constant (`rk_fast_threshold_bounded`, `oneshot_thresholds_bounded`), which
-  makes it `constant * needle.len() + constant` (`rabinkarp_*_cost_short_haystack`);
-* generic packed pair `find`: `(len / BYTES + 2) * (1 + BYTES * (needle.len / 4 + 3))` steps -
-  again a product, but the meta searcher only gives the vector searcher needles of at most
-  `MAX_LEN` bytes (`maxlen_bounded`), which makes it `constant * haystack.len() + constant`
-  (`packedpair_find_cost_linear`); `find_prefilter`: one step per chunk;
-* portable prefilter: `(K + 2) * haystack.len() + K + 1` steps for a `memchr` whose own cost is
-  `scanned + K`;
-* pair selection: `min(needle.len(), 255)` steps (`pair_scan_bounded`).
+What is counted.  A "step" is one tick of the model's step counter (`Ctr.steps`).  The model ticks
+exactly where hook H2 (`#[cfg(memchr_verif)] crate::verif::tick(kind)`) ticks in the Rust source,
+the same number of times on every path:
+* one per vector chunk inspected by the generic `memchr` family (`VECTOR_CHUNK`), one per SWAR
+  word (`SWAR_WORD`), one per byte of every byte-at-a-time loop (`BYTE`);
+* one per 4-byte word (and tail) compared by `is_equal_raw` (`IS_EQUAL`);
+* one per Rabin-Karp hash update, construction and rolling (`RK_HASH`);
+* one per Two-Way outer iteration and per byte comparison (`TW_ITER`, `TW_CMP`), one per iteration
+  of the maximal-suffix computations and of the byte-set / period preprocessing (`TW_SUFFIX`,
+  `MISC`);
+* one per packed-pair chunk and per candidate confirmed (`PP_CHUNK`, `PP_CANDIDATE`), one per
+  iteration of the portable prefilter and of pair selection (`FALLBACK_PRE`, `MISC`);
+* one per prefilter call of the meta searcher (`PRE_CALL`).
+The kind is ignored: the model has one counter, so every bound below bounds the SUM of all kinds.
+The differential driver compares the model's counter with the Rust counters for equality on every
+operation, which is what ties the numbers here to the compiled code.
 
-STILL MISSING (C13 is not fully proved)
-* the cost of the forward Two-Way search WITH a prefilter (`find_with_prefilter` with
-  `Some(pre)`): its value is proved for every prefilter state (`Props/C03`, `Props/C12`), its step
-  count is not - the argument needs that the adaptive shut-off (`PrefilterState::is_effective`,
-  C14) bounds the total prefilter work by a constant times the bytes skipped;
-* the cost of the dispatched `memchr` / `memrchr` (one-byte needles, and the `memchr` inside the
-  portable prefilter, whose bound here is parametric in `MemchrOk memchr K`): C01/C02 state
-  values, no step bounds;
-* the meta searcher totals (`src/memmem/searcher.rs`): values are proved for every branch
-  (`Props/C03`, `Props/C04`), and each branch's ingredient has a bound in this file (Rabin-Karp
-  only below the thresholds, packed pair only for needles of `2..=MAX_LEN` bytes, Two-Way without
-  prefilter), but the composed bound for `Searcher::new` + `Searcher::find` / `SearcherRev` is not
-  stated as one theorem;
-* totals for a complete `find_iter` / `rfind_iter` traversal (the sum over the restarts);
-* Shift-Or has no `tick` hook in its loop (it is not reachable from the meta searcher), so no
-  step bound is stated for it; its loop runs exactly `haystack.len()` iterations by
-  construction of the model (`ShiftOr.findLoop`).
+What is not modelled.  Wall-clock time, cache and branch behaviour, the cost of one vector
+instruction versus one byte comparison (each is "one step"), allocation.  Shift-Or has no `tick`
+hook in its loop and is not reachable from the meta searcher; its loop runs exactly
+`haystack.len()` iterations by construction of the model (`ShiftOr.findLoop`).
 
-Only statements, one-line proofs from the master lemmas (the arithmetic rewriting of two bounds
-into linear form is in `Proofs/PropsBridge.lean`), non-vacuity examples and `#print axioms`.
+Contents
+* obligations on the generated constants the linearity argument relies on (`MAX_LEN`, the
+  Rabin-Karp thresholds, the pair scan limit): changing one of them in `/repo` makes this file fail
+  to compile;
+* the ingredient bounds: `is_equal_raw` (`n / 4 + 2`), Rabin-Karp (a product, linear below the
+  constant thresholds), generic packed pair (a product, linear for needles of at most `MAX_LEN`
+  bytes), portable prefilter, pair selection, Two-Way without a prefilter (construction
+  `6 * needle.len + 2`, search `3 * haystack.len + 2 * needle.len + 1`, forward and reverse);
+* the dispatched `memchr` / `memrchr` family: `scanned + 2` steps (`memchr_cost`, `memrchr_cost`);
+* every prefilter strategy: `4 * consumed + 1020` steps per call (`prefilter_cost`);
+* Two-Way forward WITH a prefilter, every `PrefilterState`, adaptive shut-off included:
+  `1031 * scanned + 2 * needle.len + 1022` (`twoway_pre_cost`);
+* the meta searcher: `Searcher::new` `7 * needle.len + 257`, `Searcher::find`
+  `1031 * scanned + 17 * needle.len + 2000`, `SearcherRev::new` `7 * needle.len + 2`,
+  `SearcherRev::rfind` `3 * scannedRev + 17 * needle.len + 192` (`searcher_*_cost`);
+* `Finder::new(..).find(..)`, the one-shot `memmem::find` / `memmem::rfind`
+  (`finder_find_cost`, `oneshot_find_cost`, `oneshot_rfind_cost`);
+* complete traversals: `find_iter` `2079 * haystack.len + 24 * needle.len + 2000 * k + 3305`,
+  `rfind_iter` `23 * haystack.len + 24 * needle.len + 192 * k + 194` for `k` calls of `next()`
+  (`find_iter_total_cost`, `rfind_iter_total_cost`);
+* the headline `linear_work`: explicit `A = 2079`, `B = 5305` with
+  `steps <= A * (haystack.len + needle.len) + B * (matches + 1)` for build + find / rfind / one-shot
+  find / rfind / complete `find_iter` / `rfind_iter`, for every configuration, prefilter setting,
+  ranker, needle and haystack.
+
+Only statements, one-line proofs from the master lemmas (`Proofs/Cost*.lean`; the arithmetic
+rewriting of bounds into linear form is in `Proofs/PropsBridge.lean` and
+`Proofs/PropsBridge4.lean`), non-vacuity examples and `#print axioms`.
 -/
 import MemchrModel.Proofs.IsEqual
 import MemchrModel.Proofs.RabinKarp
@@ -54,6 +63,7 @@ import MemchrModel.Proofs.Sensible
 import MemchrModel.Proofs.Neon
 import MemchrModel.Proofs.PropsBridge
 import MemchrModel.Proofs.PropsBridge3
+import MemchrModel.Proofs.PropsBridge4
 import MemchrModel.Generated.Consts
 
 namespace Memchr.Props.C13
@@ -333,6 +343,296 @@ example :
    let ⟨tw, c', h, _⟩ := twoway_new_cost _ {} hv; ⟨tw, c', h⟩,
    let ⟨tw, c', h, _⟩ := twoway_rev_new_cost _ {} hv; ⟨tw, c', h⟩⟩
 
+/-! ### the dispatched `memchr` family (`src/memchr.rs`, every backend) -/
+
+section Full
+
+open Memchr.Memmem
+
+/-- **`memchr` / `memchr2` / `memchr3`** of every build + CPU configuration `cfg` (every backend:
+the generic vector routine on SSE2 / AVX2 / NEON / simd128 including the wrappers' byte loops, and
+SWAR), every needle set `ns` (1 to 3 bytes), every valid haystack and counter state: returns the
+index of the first needle byte without a fault in at most `scanned + 2` steps, where `scanned` =
+index + 1, or `haystack.len()` when there is none.  Counted: vector chunks, SWAR words, byte-loop
+bytes. -/
+theorem memchr_cost (cfg : Api.Cfg) (ns : Needles) (hay : Slice) (hv : hay.Valid) (c : Ctr) :
+    ∃ c', Api.memchr cfg ns false hay c = .ok (Api.specIdx ns false hay) c' ∧
+      c'.steps ≤ c.steps + Api.scannedFwd (Api.specIdx ns false hay) hay.len + 2 :=
+  Cost.memchr cfg ns hay hv c
+
+/-- **`memrchr` / `memrchr2` / `memrchr3`**, likewise: the index of the last needle byte in at
+most `scanned + 2` steps, `scanned` = `haystack.len()` - index, or `haystack.len()` when there is
+none. -/
+theorem memrchr_cost (cfg : Api.Cfg) (ns : Needles) (hay : Slice) (hv : hay.Valid) (c : Ctr) :
+    ∃ c', Api.memchr cfg ns true hay c = .ok (Api.specIdx ns true hay) c' ∧
+      c'.steps ≤ c.steps + Api.scannedRev (Api.specIdx ns true hay) hay.len + 2 :=
+  Cost.memrchr cfg ns hay hv c
+
+/-- hypotheses are satisfiable: a 9-byte haystack -/
+example : (Slice.ofMem ⟨0, 4096, #[120, 120, 97, 98, 99, 97, 98, 120, 120]⟩).Valid :=
+  Nat.le_of_eq (Nat.zero_add _)
+
+/-! ### prefilters and Two-Way with a prefilter -/
+
+/-- **Every prefilter strategy `Searcher::new` can build** (`p.GoodFor n`: the portable
+packed-pair prefilter on top of the dispatched `memchr`, a vector `find_prefilter`, or
+`find_simple` for haystacks below `min_haystack_len`), for every configuration, valid needle and
+valid haystack: one call returns normally, is sound (every occurrence `q` of the needle forces a
+candidate `a <= q`), a candidate lies inside the haystack, and the call costs at most
+`4 * consumed + 1020` steps, `consumed` = candidate offset + 1, or `haystack.len()` when there is
+no candidate.  (The constant 1020 comes from the pair offsets being `u8`s.) -/
+theorem prefilter_cost (cfg : Api.Cfg) {n : Slice} (hn : n.Valid) {p : Prefilter}
+    (hg : p.GoodFor n) (hay : Slice) (hh : hay.Valid) (c : Ctr) :
+    ∃ r c', p.find cfg hay c = .ok r c' ∧
+      (∀ q, Spec.OccAt hay.toArray n.toArray q → ∃ a, r = some a ∧ a ≤ q) ∧
+      (∀ x, r = some x → x < hay.len) ∧
+      c'.steps ≤ c.steps + 4 * Fallback.scanned r hay.len + 1020 :=
+  Cost.prefilter cfg hn hg hay hh c
+
+/-- **Two-Way forward WITH a prefilter** (`find_with_prefilter(pre, haystack, n)`, the case the
+adaptive shut-off `PrefilterState::is_effective` exists for).  Quantified over: every valid needle
+`n0` with the finder `tw` that `twoway::Finder::new(n0)` returned, every valid search needle `n`
+holding the bytes of `n0`, every valid haystack, and `pre = None` or ANY `Pre` (any
+`PrefilterState`: any `skips` / `skipped` counters, inert or not) whose strategy is sound on every
+valid haystack (`hsound`) and costs at most `4 * consumed + 1020` steps per call with candidates
+inside the slice (`hcost`, `TwoWay.StratCost`; both hold for every strategy of `prefilter_cost`).
+Conclusion: the leftmost occurrence, no fault, at most
+`1031 * scanned + 2 * needle.len() + 1022` steps, `scanned` = answer + 1, or `haystack.len()` for
+`None`.  Counted: Two-Way iterations and comparisons, prefilter calls and everything they tick. -/
+theorem twoway_pre_cost (n0 n hay : Slice) (tw : TwoWay.TwoWay) (c0 c0' : Ctr)
+    (hn0 : n0.Valid) (hn : n.Valid) (hh : hay.Valid) (hbytes : n.toList = n0.toList)
+    (hnew : TwoWay.Finder.new n0 c0 = .ok tw c0') (pre : Option Pre)
+    (hsound : ∀ p, pre = some p → ∀ h' : Slice, h'.Valid → ∀ c, ∃ r c', p.strat h' c = .ok r c' ∧
+      ∀ q, Spec.OccAt h'.toArray n.toArray q → ∃ a, r = some a ∧ a ≤ q)
+    (hcost : ∀ p, pre = some p → TwoWay.StratCost p.strat) (c : Ctr) :
+    ∃ pre' c', TwoWay.Finder.findWithPrefilter tw pre hay n c =
+        .ok (Spec.leftmost hay.toArray n.toArray, pre') c' ∧
+      c'.steps ≤ c.steps + 1031 * Fallback.scanned (Spec.leftmost hay.toArray n.toArray) hay.len +
+        2 * n.len + 1022 :=
+  Cost.twoway_pre n0 n hay tw c0 c0' hn0 hn hh hbytes hnew pre hsound hcost c
+
+/-- hypotheses of `twoway_pre_cost` are satisfiable: valid slices, a finder exists, and `pre =
+None` satisfies `hsound` / `hcost` vacuously; the strategy "never a candidate restriction"
+(`fun _ => pure none`) has the required cost, and so has every strategy of `prefilter_cost` -/
+example : Cost.exNeedle.Valid ∧ Cost.exHay.Valid ∧ Cost.exNeedle.toList = Cost.exNeedle.toList ∧
+    (∃ tw c0', TwoWay.Finder.new Cost.exNeedle {} = .ok tw c0') ∧
+    (∀ p : Pre, (none : Option Pre) = some p → TwoWay.StratCost p.strat) ∧
+    TwoWay.StratCost (fun _ => pure none) ∧
+    (∀ (cfg : Api.Cfg) (p : Prefilter), p.GoodFor Cost.exNeedle → TwoWay.StratCost (p.find cfg)) :=
+  ⟨Cost.exNeedle_valid, Cost.exHay_valid, rfl,
+   let ⟨tw, c', h, _⟩ := twoway_new_cost Cost.exNeedle {} Cost.exNeedle_valid; ⟨tw, c', h⟩,
+   (fun _ h => nomatch h), TwoWay.stratCost_none,
+   fun cfg _ hg sub hv => Cost.prefilter_costs cfg Cost.exNeedle_valid hg sub hv⟩
+
+/-! ### the meta searcher (`src/memmem/searcher.rs`) -/
+
+/-- **`Searcher::new(prefilter, ranker, needle)`** for every configuration, prefilter setting
+(`none` / `auto`), ranker and valid needle: returns normally a searcher that is good for the needle
+and gives the vector (packed pair) kind only needles of at most `MAX_LEN` bytes, in at most
+`7 * needle.len() + 257` steps.  Counted: Rabin-Karp hash construction, pair selection, Two-Way
+preprocessing. -/
+theorem searcher_new_cost (cfg : Api.Cfg) (pf : PrefilterConfig) (rank : UInt8 → UInt8)
+    (needle : Slice) (hn : needle.Valid) (c : Ctr) :
+    ∃ s c', Searcher.new cfg pf rank needle c = .ok s c' ∧ s.GoodFor needle ∧
+      PackedOk needle s ∧ c'.steps ≤ c.steps + 7 * needle.len + 257 :=
+  Cost.searcher_new cfg pf rank needle hn c
+
+/-- **`Searcher::find`** for the searcher `s` that `Searcher::new` returned for `n0` (any
+configuration, prefilter setting, ranker), every valid search needle `n` holding the bytes of
+`n0`, every valid haystack, EVERY `PrefilterState` and counter state - every strategy: empty
+needle, one byte (`memchr`), Rabin-Karp on short haystacks, packed pair, Two-Way with or without a
+prefilter: the leftmost occurrence without a fault in at most
+`1031 * scanned + 17 * needle.len() + 2000` steps, `scanned` = answer + 1, or `haystack.len()` when
+the answer is `None`. -/
+theorem searcher_find_cost (cfg : Api.Cfg) (pf : PrefilterConfig) (rank : UInt8 → UInt8)
+    (n0 : Slice) (hn0 : n0.Valid) (c0 c0' : Ctr) (s : Searcher)
+    (hnew : Searcher.new cfg pf rank n0 c0 = .ok s c0')
+    (n hay : Slice) (hn : n.Valid) (hh : hay.Valid) (hb : n.toList = n0.toList)
+    (st : PrefilterState) (c : Ctr) :
+    ∃ st' c', s.find cfg st hay n c = .ok (Spec.leftmost hay.toArray n.toArray, st') c' ∧
+      c'.steps ≤ c.steps + 1031 * Fallback.scanned (Spec.leftmost hay.toArray n.toArray) hay.len +
+        17 * n.len + 2000 :=
+  Cost.searcher_find cfg pf rank n0 hn0 c0 c0' s hnew n hay hn hh hb st c
+
+/-- **`SearcherRev::new(needle)`** for every valid needle: a reverse searcher that is good for the
+needle in at most `7 * needle.len() + 2` steps. -/
+theorem searcher_rev_new_cost (needle : Slice) (hn : needle.Valid) (c : Ctr) :
+    ∃ s c', SearcherRev.new needle c = .ok s c' ∧ s.GoodFor needle ∧
+      c'.steps ≤ c.steps + 7 * needle.len + 2 :=
+  Cost.searcher_rev_new needle hn c
+
+/-- **`SearcherRev::rfind`** for the searcher `SearcherRev::new` returned for `n0`, every
+configuration, every valid search needle `n` holding the bytes of `n0`, every valid haystack: the
+rightmost occurrence in at most `3 * scannedRev + 17 * needle.len() + 192` steps, `scannedRev` =
+`haystack.len()` - answer, or `haystack.len()` when the answer is `None`. -/
+theorem searcher_rfind_cost (cfg : Api.Cfg) (n0 : Slice) (hn0 : n0.Valid) (c0 c0' : Ctr)
+    (s : SearcherRev) (hnew : SearcherRev.new n0 c0 = .ok s c0')
+    (n hay : Slice) (hn : n.Valid) (hh : hay.Valid) (hb : n.toList = n0.toList) (c : Ctr) :
+    ∃ c', s.rfind cfg hay n c = .ok (Spec.rightmost hay.toArray n.toArray) c' ∧
+      c'.steps ≤ c.steps + 3 * Api.scannedRev (Spec.rightmost hay.toArray n.toArray) hay.len +
+        17 * n.len + 192 :=
+  Cost.searcher_rfind cfg n0 hn0 c0 c0' s hnew n hay hn hh hb c
+
+/-- hypotheses of `searcher_find_cost` / `searcher_rfind_cost` are satisfiable: for every
+configuration `Searcher::new` / `SearcherRev::new` do return a searcher for the example needle
+"abaab", the slices are valid and the search needle has the bytes of the construction needle -/
+example (cfg : Api.Cfg) :
+    (∃ s c0', Searcher.new cfg .auto Pair.defaultRank Cost.exNeedle {} = .ok s c0') ∧
+    (∃ s c0', SearcherRev.new Cost.exNeedle {} = .ok s c0') ∧
+    Cost.exNeedle.Valid ∧ Cost.exHay.Valid ∧ Cost.exNeedle.toList = Cost.exNeedle.toList :=
+  ⟨let ⟨s, c', e, _⟩ := searcher_new_cost cfg .auto Pair.defaultRank _ Cost.exNeedle_valid {}
+   ⟨s, c', e⟩,
+   let ⟨s, c', e, _⟩ := searcher_rev_new_cost _ Cost.exNeedle_valid {}; ⟨s, c', e⟩,
+   Cost.exNeedle_valid, Cost.exHay_valid, rfl⟩
+
+/-! ### `Finder` and the one-shot functions (`src/memmem/mod.rs`) -/
+
+/-- **`Finder::new(needle).find(haystack)`**, construction included, every configuration, valid
+needle and haystack: the leftmost occurrence in at most
+`1031 * scanned + 24 * needle.len() + 2257` steps. -/
+theorem finder_find_cost (cfg : Api.Cfg) (needle hay : Slice) (hn : needle.Valid)
+    (hh : hay.Valid) (c : Ctr) :
+    ∃ c', (Finder.new cfg needle >>= fun f => f.find cfg hay) c =
+        .ok (Spec.leftmost hay.toArray needle.toArray) c' ∧
+      c'.steps ≤ c.steps +
+        1031 * Fallback.scanned (Spec.leftmost hay.toArray needle.toArray) hay.len +
+        24 * needle.len + 2257 :=
+  Cost.finder_find cfg needle hay hn hh c
+
+/-- **The one-shot `memmem::find(haystack, needle)`** (Rabin-Karp below the one-shot threshold,
+`Finder::new` + `find` otherwise), every configuration, valid needle and haystack: the leftmost
+occurrence in at most `1031 * scanned + 24 * needle.len() + 2257` steps. -/
+theorem oneshot_find_cost (cfg : Api.Cfg) (needle hay : Slice) (hn : needle.Valid)
+    (hh : hay.Valid) (c : Ctr) :
+    ∃ c', Memmem.find cfg hay needle c = .ok (Spec.leftmost hay.toArray needle.toArray) c' ∧
+      c'.steps ≤ c.steps +
+        1031 * Fallback.scanned (Spec.leftmost hay.toArray needle.toArray) hay.len +
+        24 * needle.len + 2257 :=
+  Cost.oneshot_find cfg needle hay hn hh c
+
+/-- **The one-shot `memmem::rfind(haystack, needle)`**, likewise: the rightmost occurrence in at
+most `3 * scannedRev + 24 * needle.len() + 194` steps. -/
+theorem oneshot_rfind_cost (cfg : Api.Cfg) (needle hay : Slice) (hn : needle.Valid)
+    (hh : hay.Valid) (c : Ctr) :
+    ∃ c', Memmem.rfind cfg hay needle c = .ok (Spec.rightmost hay.toArray needle.toArray) c' ∧
+      c'.steps ≤ c.steps +
+        3 * Api.scannedRev (Spec.rightmost hay.toArray needle.toArray) hay.len +
+        24 * needle.len + 194 :=
+  Cost.oneshot_rfind cfg needle hay hn hh c
+
+/-! ### complete iterator traversals -/
+
+/-- **A complete `find_iter` traversal.**  Build a finder with any builder `b` (prefilter setting)
+and ranker in any configuration, then call `next()` `k` times on `finder.find_iter(haystack)`, for
+every `k` up to `matches + 1` (`matches` = length of the greedy non-overlapping match sequence; `k
+= matches + 1` is the complete traversal: all matches and the first `None`), every valid needle
+and haystack, heap and counter state: the observations are the first `k` entries of the greedy
+match sequence (then `None`), and the whole run - construction and all restarts included - costs
+at most `2079 * haystack.len + 24 * needle.len + 2000 * k + 3305` steps. -/
+theorem find_iter_total_cost (cfg : Api.Cfg) (b : FinderBuilder) (rank : UInt8 → UInt8)
+    (needle hay : Slice) (hn : needle.Valid) (hh : hay.Valid) (k : Nat)
+    (hk : k ≤ (Spec.greedyFwd hay.toArray needle.toArray).length + 1) (h : Heap) (c : Ctr) :
+    ∃ it' h' c', (b.buildForwardWithRanker cfg rank needle >>= fun f =>
+        FindIter.run cfg (List.replicate k .next) (f.findIter hay) h) c =
+        .ok ((List.range k).map
+          (fun i => Out.idx ((Spec.greedyFwd hay.toArray needle.toArray)[i]?)), it', h') c' ∧
+      c'.steps ≤ c.steps + 2079 * hay.len + 24 * needle.len + 2000 * k + 3305 :=
+  Cost.find_iter_total cfg b rank needle hay hn hh k hk h c
+
+/-- **A complete `rfind_iter` traversal.**  `FinderRev::new(needle)`, then `k` calls of `next()`
+on `finder.rfind_iter(haystack)` for every `k` up to the number of reverse greedy matches plus
+one: the observations are the first `k` entries of the reverse greedy match sequence (then
+`None`), and the whole run - construction included - costs at most
+`23 * haystack.len + 24 * needle.len + 192 * k + 194` steps. -/
+theorem rfind_iter_total_cost (cfg : Api.Cfg) (needle hay : Slice) (hn : needle.Valid)
+    (hh : hay.Valid) (k : Nat)
+    (hk : k ≤ (Spec.greedyRev hay.toArray needle.toArray).length + 1) (h : Heap) (c : Ctr) :
+    ∃ it' h' c', (FinderRev.new needle >>= fun f =>
+        FindRevIter.run cfg (List.replicate k .next) (f.rfindIter hay) h) c =
+        .ok ((List.range k).map
+          (fun i => Out.idx ((Spec.greedyRev hay.toArray needle.toArray)[i]?)), it', h') c' ∧
+      c'.steps ≤ c.steps + 23 * hay.len + 24 * needle.len + 192 * k + 194 :=
+  Cost.rfind_iter_total cfg needle hay hn hh k hk h c
+
+/-! ### the headline -/
+
+/-- the number of matches `find_iter` reports is at most `haystack.len() + 1` (attained by the
+empty needle), for every needle and every valid haystack; so the `matches` term of `linear_work`
+is itself linear in the haystack length -/
+theorem match_count_le (needle hay : Slice) (hh : hay.Valid) :
+    (Spec.greedyFwd hay.toArray needle.toArray).length ≤ hay.len + 1 :=
+  Slice.toArray_size hh ▸ Bridge3.greedyFwd_length_le hay.toArray needle.toArray
+
+/-- **C13, linear work.**  There are explicit constants `A = 2079` and `B = 5305`, chosen before
+and independently of everything else, such that for EVERY build + CPU configuration `cfg`, every
+builder `b` (prefilter setting `none` / `auto`), every ranker, every valid needle and every valid
+haystack (no side condition: periodic needles, `a^m` in `(a^(m-1) b)^r`, two rare bytes recurring
+at every position, a candidate-free prefix followed by dense false candidates, ...), with
+`matchCount` = the number of non-overlapping matches `find_iter` reports
+(`(Spec.greedyFwd ..).length`) and
+
+  `budget = A * (haystack.len + needle.len) + B * (matchCount + 1)`,
+
+from every heap and counter state each of the following returns normally, with exactly the
+specified result, having ticked the step counter at most `budget` times, construction included:
+1. `b.build_forward_with_ranker(ranker, needle)` then `find(haystack)`: the leftmost occurrence;
+2. `FinderRev::new(needle)` then `rfind(haystack)`: the rightmost occurrence;
+3. the one-shot `memmem::find(haystack, needle)`;
+4. the one-shot `memmem::rfind(haystack, needle)`;
+5. build a finder, then `k` calls of `next()` on `find_iter(haystack)`, for every `k` up to
+   `matchCount + 1` (the complete traversal: every match, then the first `None`);
+6. `FinderRev::new(needle)`, then `k` calls of `next()` on `rfind_iter(haystack)`, for every `k`
+   up to the number of matches `rfind_iter` reports plus one (the complete reverse traversal).
+A step is a tick of the model counter, placed where hook H2 ticks in the Rust (see the file
+header).  For a non-empty needle `matchCount <= haystack.len / needle.len`, and always
+`matchCount <= haystack.len + 1` (`Bridge3.greedyFwd_length_le_div`, `match_count_le`), so
+`budget <= (A + B) * (haystack.len + needle.len) + 2 * B`: no input family makes the work
+quadratic. -/
+theorem linear_work :
+    ∃ A B : Nat, A = 2079 ∧ B = 5305 ∧
+      ∀ (cfg : Api.Cfg) (b : FinderBuilder) (rank : UInt8 → UInt8) (needle hay : Slice),
+        needle.Valid → hay.Valid →
+      ∀ (matchCount budget : Nat),
+        matchCount = (Spec.greedyFwd hay.toArray needle.toArray).length →
+        budget = A * (hay.len + needle.len) + B * (matchCount + 1) →
+      ∀ (h : Heap) (c : Ctr),
+        (∃ c', (b.buildForwardWithRanker cfg rank needle >>= fun f => f.find cfg hay) c =
+            .ok (Spec.leftmost hay.toArray needle.toArray) c' ∧
+          c'.steps ≤ c.steps + budget) ∧
+        (∃ c', (FinderRev.new needle >>= fun f => f.rfind cfg hay) c =
+            .ok (Spec.rightmost hay.toArray needle.toArray) c' ∧
+          c'.steps ≤ c.steps + budget) ∧
+        (∃ c', Memmem.find cfg hay needle c =
+            .ok (Spec.leftmost hay.toArray needle.toArray) c' ∧
+          c'.steps ≤ c.steps + budget) ∧
+        (∃ c', Memmem.rfind cfg hay needle c =
+            .ok (Spec.rightmost hay.toArray needle.toArray) c' ∧
+          c'.steps ≤ c.steps + budget) ∧
+        (∀ k, k ≤ matchCount + 1 →
+          ∃ it' h' c', (b.buildForwardWithRanker cfg rank needle >>= fun f =>
+              FindIter.run cfg (List.replicate k .next) (f.findIter hay) h) c =
+              .ok ((List.range k).map
+                (fun i => Out.idx ((Spec.greedyFwd hay.toArray needle.toArray)[i]?)), it', h') c' ∧
+            c'.steps ≤ c.steps + budget) ∧
+        (∀ k, k ≤ (Spec.greedyRev hay.toArray needle.toArray).length + 1 →
+          ∃ it' h' c', (FinderRev.new needle >>= fun f =>
+              FindRevIter.run cfg (List.replicate k .next) (f.rfindIter hay) h) c =
+              .ok ((List.range k).map
+                (fun i => Out.idx ((Spec.greedyRev hay.toArray needle.toArray)[i]?)), it', h') c' ∧
+            c'.steps ≤ c.steps + budget) :=
+  Bridge4.linear_work
+
+/-- the hypotheses of `linear_work` are satisfiable by a non-trivial input: the periodic needle
+"abaab" and the haystack "abaaabaabab" are valid slices, the needle occurs (leftmost at offset 4),
+`matchCount = 1`, and the budget for this input is `2079 * (11 + 5) + 5305 * 2 = 43874` -/
+example : Cost.exNeedle.Valid ∧ Cost.exHay.Valid ∧
+    Spec.leftmost Cost.exHay.toArray Cost.exNeedle.toArray = some 4 ∧
+    (1 : Nat) = (Spec.greedyFwd Cost.exHay.toArray Cost.exNeedle.toArray).length ∧
+    (43874 : Nat) = 2079 * (Cost.exHay.len + Cost.exNeedle.len) + 5305 * (1 + 1) :=
+  ⟨Cost.exNeedle_valid, Cost.exHay_valid, by decide, by decide, by decide⟩
+
+end Full
+
 end Memchr.Props.C13
 
 #print axioms Memchr.Props.C13.maxlen_bounded
@@ -357,3 +657,18 @@ end Memchr.Props.C13
 #print axioms Memchr.Props.C13.twoway_rev_new_cost
 #print axioms Memchr.Props.C13.twoway_search_cost
 #print axioms Memchr.Props.C13.twoway_rsearch_cost
+#print axioms Memchr.Props.C13.memchr_cost
+#print axioms Memchr.Props.C13.memrchr_cost
+#print axioms Memchr.Props.C13.prefilter_cost
+#print axioms Memchr.Props.C13.twoway_pre_cost
+#print axioms Memchr.Props.C13.searcher_new_cost
+#print axioms Memchr.Props.C13.searcher_find_cost
+#print axioms Memchr.Props.C13.searcher_rev_new_cost
+#print axioms Memchr.Props.C13.searcher_rfind_cost
+#print axioms Memchr.Props.C13.finder_find_cost
+#print axioms Memchr.Props.C13.oneshot_find_cost
+#print axioms Memchr.Props.C13.oneshot_rfind_cost
+#print axioms Memchr.Props.C13.find_iter_total_cost
+#print axioms Memchr.Props.C13.rfind_iter_total_cost
+#print axioms Memchr.Props.C13.match_count_le
+#print axioms Memchr.Props.C13.linear_work
